@@ -726,9 +726,13 @@ fn check_posts(env: &mut Env, model: &mut Model, rep: &mut Report, cases: &[Post
     let sidsw = sids_wire(&env.sids);
     for (i, c) in cases.iter().enumerate() {
         rep.evaluations += 1;
-        for w in c.kind.split_whitespace() {
-            if w != "corpus" && !w.contains('=') && w.chars().all(|ch| ch.is_ascii_alphanumeric() || ch == '_') {
-                rep.count(&format!("post_{}", w));
+        if c.kind.starts_with("corpus") {
+            rep.count("post_corpus");
+        } else {
+            for w in c.kind.split_whitespace() {
+                if w.chars().all(|ch| ch.is_ascii_alphanumeric() || ch == '_' || ch == '=') {
+                    rep.count(&format!("post_{}", w));
+                }
             }
         }
         rep.nontrivial.insert(format!("{}|{}", c.seg, hex(&c.body)));
@@ -1497,7 +1501,7 @@ pub fn run(args: &Args, model: &mut Model) -> Report {
     }
 
     // generated posts: batches from several threads
-    let (nbatches, nsend, ne2e) = if args.thorough { (900, 1500, 700) } else { (60, 120, 60) };
+    let (nbatches, nsend, ne2e) = if args.thorough { (9000, 12000, 4000) } else { (300, 500, 200) };
     let sids = env.sids.clone();
     let mut tag: u64 = 1_000;
     for bi in 0..nbatches {
